@@ -195,3 +195,65 @@ Proof.
   eexists. split; [vm_compute; reflexivity|split; reflexivity].
 Qed.
 Print Assumptions C01_same_name_aggregates_refuted.
+
+(** *** the percentile sketch (Ckms.v: a transcription of the CKMS sketch of the `quantiles` crate as agrind feeds and
+    queries it; every percentile cell of every run is compared with it exactly) *)
+From AG Require Import Ckms Ckms_proofs.
+
+(** "a percentile that is one of the observed values": for every error bound, every arrival order and every quantile *)
+Theorem C01_percentile_is_an_observed_value : forall err vals q r v,
+  ckms_run err vals q = Some (r, v) -> In v vals.
+Proof. exact ckms_query_observed. Qed.
+Print Assumptions C01_percentile_is_an_observed_value.
+
+(** a group with a numeric value has a percentile, one without has none *)
+Theorem C01_percentile_defined : forall err vals q,
+  vals <> [] -> exists r v, ckms_run err vals q = Some (r, v).
+Proof. exact ckms_nonempty_answers. Qed.
+Print Assumptions C01_percentile_defined.
+
+Theorem C01_percentile_of_nothing : forall err q, ckms_run err [] q = None.
+Proof. exact ckms_empty_none. Qed.
+Print Assumptions C01_percentile_of_nothing.
+
+(** the bookkeeping the rank estimate rests on: the weights of the samples add up to the number of values seen, and the
+    samples stay in order *)
+Theorem C01_sketch_weights_add_up : forall err vals,
+  let st := fold_left ckms_insert vals (ckms_new err) in
+  samples_g_sum (ckms_samples st) = Z.of_nat (length vals) /\
+  st_n st = Z.of_nat (length vals).
+Proof. exact ckms_g_sum. Qed.
+Print Assumptions C01_sketch_weights_add_up.
+
+Theorem C01_sketch_sorted : forall err vals,
+  Forall (fun v => f_is_nan v = false) vals ->
+  sorted_v (map (fun s => fst (fst s)) (ckms_samples (fold_left ckms_insert vals (ckms_new err)))).
+Proof. exact ckms_sorted. Qed.
+Print Assumptions C01_sketch_sorted.
+
+(** below the first compression (fewer than 500 values with agrind's error bound) the sketch holds every value once:
+    the percentile is then exact, not merely within the tolerance *)
+Theorem C01_sketch_exact_below_threshold : forall vals,
+  (length vals < 500)%nat ->
+  let samples := ckms_samples (fold_left ckms_insert vals (ckms_new err001)) in
+  Permutation (map (fun s => fst (fst s)) samples) vals /\
+  Forall (fun s => snd (fst s) = 1 /\ snd s = 0) samples.
+Proof. exact ckms_exact_below_threshold. Qed.
+Print Assumptions C01_sketch_exact_below_threshold.
+
+(** the extremes are never compressed away: the last sample is the maximum, the first the minimum of what was seen *)
+Theorem C01_sketch_keeps_the_maximum : forall err vals,
+  Forall (fun v => f_is_nan v = false) vals ->
+  let vmax := last (map (fun s => fst (fst s))
+                        (ckms_samples (fold_left ckms_insert vals (ckms_new err)))) f_zero in
+  forall v, In v vals -> In vmax vals /\ fleb v vmax = true.
+Proof. exact ckms_max_kept. Qed.
+Print Assumptions C01_sketch_keeps_the_maximum.
+
+Theorem C01_sketch_keeps_the_minimum : forall vals,
+  Forall (fun v => f_is_nan v = false) vals ->
+  forall vmin g dl rest,
+  ckms_samples (fold_left ckms_insert vals (ckms_new err001)) = (vmin, g, dl) :: rest ->
+  In vmin vals /\ forall v, In v vals -> fleb vmin v = true.
+Proof. exact ckms_min_kept. Qed.
+Print Assumptions C01_sketch_keeps_the_minimum.
